@@ -2,4 +2,5 @@ INIT Init
 NEXT Next
 INVARIANT Laws
 INVARIANT Once
+INVARIANT TopLaw
 CHECK_DEADLOCK FALSE
